@@ -3,7 +3,7 @@
    and outlines with everything GherkinOutlineProofs covers - is read back exactly.  The content of a rule is handled
    by the zoom of GherkinZoom.v: inside a rule the machine does what it does inside a feature. *)
 From BV Require Import Base UStr GherkinTypes Gherkin GherkinProofs GherkinRowProofs GherkinBlockProofs GherkinTagProofs
-                       GherkinTableProofs GherkinDocProofs GherkinRichProofs GherkinDescrProofs GherkinOutlineProofs GherkinZoom.
+                       GherkinTableProofs GherkinDocProofs GherkinRichProofs GherkinDescrProofs GherkinBgProofs GherkinOutlineProofs GherkinZoom.
 
 (* ------------------------------------------------------------------ the Rule line *)
 Record rule_line (kw : kwtable) (line alias name : ustr) : Prop := {
@@ -18,17 +18,17 @@ Record rule_line (kw : kwtable) (line alias name : ustr) : Prop := {
 Lemma rule_line_strip kw line alias name : rule_line kw line alias name -> rule_line kw (strip line) alias name.
 Proof. intros [ND NB NC NT NS NP RL]. split; rewrite ?strip_idem; auto using doc_fact_strip. Qed.
 
-Definition zctx_of (f : pfeature) : zctx := mkZ (f_kw f) (f_name f) (f_line f) (f_tags f) (f_descr f) (f_lang f) (f_items f).
-Definition rule_feat (m : mstate) (alias name : ustr) : pfeature := mkPFeat alias name (S (m_line m)) (m_tags m) [] None [] (m_lang m).
+Definition zctx_of (f : pfeature) : zctx := mkZ (f_kw f) (f_name f) (f_line f) (f_tags f) (f_descr f) (f_bg f) (f_lang f) (f_items f).
+Definition rule_feat (m : mstate) (bg : option pbg) (alias name : ustr) : pfeature := mkPFeat alias name (S (m_line m)) (m_tags m) [] bg [] (m_lang m).
 
 (* the zoomed state right after the Rule line: the rule as a feature without items *)
-Definition zstart (mz m : mstate) (alias name : ustr) : Prop :=
-  m_st mz = StFeature /\ m_cont mz = CFeat /\ m_feat mz = Some (rule_feat m alias name) /\ m_stmt mz = PRuleS /\
+Definition zstart (mz m : mstate) (bg : option pbg) (alias name : ustr) : Prop :=
+  m_st mz = StFeature /\ m_cont mz = CFeat /\ m_feat mz = Some (rule_feat m bg alias name) /\ m_stmt mz = PRuleS /\
   m_tags mz = [] /\ m_table mz = None /\ m_in_examples mz = false /\ m_lines mz = [] /\ m_line mz = S (m_line m) /\ m_kw mz = m_kw m.
 
-Definition rstart (m0 m : mstate) (alias name : ustr) : mstate :=
+Definition rstart (m0 m : mstate) (bg : option pbg) (alias name : ustr) : mstate :=
   mkM StFeature (m_line m0) (m_last m0) (m_ml_start m0) (m_ml_lead m0) (m_ml_term m0) (m_lang m0) (m_kw m0) (m_variant m0)
-      (Some (rule_feat m alias name)) CFeat (m_det_rule m0) PRuleS (m_det m0) [] (m_lines m0) (m_table m0) (m_in_examples m0).
+      (Some (rule_feat m bg alias name)) CFeat (m_det_rule m0) PRuleS (m_det m0) [] (m_lines m0) (m_table m0) (m_in_examples m0).
 
 Lemma sub_taggable_rule m s alias name :
   starts_at s = false -> first_alias (k_rule (m_kw m)) s = Some (alias, name) ->
@@ -36,55 +36,55 @@ Lemma sub_taggable_rule m s alias name :
 Proof. intros A R. unfold sub_taggable. rewrite match_at, A, R. reflexivity. Qed.
 
 Lemma build_rule_unzoom m0 m f alias name :
-  m_cont m0 = CFeat -> m_feat m0 = Some f -> f_bg f = None -> m_line m0 = S (m_line m) -> m_tags m0 = m_tags m -> m_lang m0 = m_lang m ->
-  rbind (build_rule m0 alias name) (fun m' => ROk (Some (upd_st m' StRule))) = ROk (Some (unzoom (zctx_of f) (rstart m0 m alias name))).
+  m_cont m0 = CFeat -> m_feat m0 = Some f -> m_line m0 = S (m_line m) -> m_tags m0 = m_tags m -> m_lang m0 = m_lang m ->
+  rbind (build_rule m0 alias name) (fun m' => ROk (Some (upd_st m' StRule))) = ROk (Some (unzoom (zctx_of f) (rstart m0 m (f_bg f) alias name))).
 Proof.
-  intros C F BG L T G. unfold build_rule. rewrite F. cbn [rbind]. f_equal. f_equal.
+  intros C F L T G. unfold build_rule. rewrite F. cbn [rbind]. f_equal. f_equal.
   unfold unzoom, rstart, wrap, rule_feat, zctx_of, rule_of, vf_of. cbn.
   destruct m0, f. cbn in *. subst. reflexivity.
 Qed.
 
 Lemma feed_rule_line_anywhere m f line alias name :
-  m_cont m = CFeat -> m_feat m = Some f -> f_bg f = None -> in_feature_body m ->
+  m_cont m = CFeat -> m_feat m = Some f -> in_feature_body m ->
   m_table m = None -> m_in_examples m = false -> m_lines m = [] -> rule_line (m_kw m) line alias name ->
-  exists mz, feed (ROk m) line = ROk (unzoom (zctx_of f) mz) /\ zstart mz m alias name.
+  exists mz, feed (ROk m) line = ROk (unzoom (zctx_of f) mz) /\ zstart mz m (f_bg f) alias name.
 Proof.
-  intros C F BG ST TB IE LN [ND NB NC NT NS NP RL].
+  intros C F ST TB IE LN [ND NB NC NT NS NP RL].
   set (m1 := upd_line m (S (m_line m))).
   assert (ZS : forall m0, m_line m0 = S (m_line m) -> m_kw m0 = m_kw m -> m_table m0 = None -> m_in_examples m0 = false -> m_lines m0 = [] ->
-                          zstart (rstart m0 m alias name) m alias name).
+                          zstart (rstart m0 m (f_bg f) alias name) m (f_bg f) alias name).
   { intros m0 L0 K0 T0 I0 N0. unfold zstart, rstart. cbn. repeat split; auto. }
   rewrite (feed_nonblank m line NB). fold m1. rewrite (action_dispatch m1 line NB NC). cbn [m1 upd_line m_st].
   destruct ST as [ST|[ST|[ST|ST]]]; rewrite ST.
   - unfold a_feature. rewrite (sub_taggable_rule m1 (strip line) alias name NT RL).
-    rewrite (build_rule_unzoom m1 m f alias name C F BG eq_refl eq_refl eq_refl). cbn [rbind].
+    rewrite (build_rule_unzoom m1 m f alias name C F eq_refl eq_refl eq_refl). cbn [rbind].
     eexists. split; [reflexivity|]. apply ZS; auto.
   - unfold a_steps. rewrite ND. unfold parse_step. cbn [m1 upd_line m_kw]. rewrite NS. cbn [rbind].
     rewrite (sub_taggable_rule m1 (strip line) alias name NT RL).
-    rewrite (build_rule_unzoom m1 m f alias name C F BG eq_refl eq_refl eq_refl). cbn [rbind].
+    rewrite (build_rule_unzoom m1 m f alias name C F eq_refl eq_refl eq_refl). cbn [rbind].
     eexists. split; [reflexivity|]. apply ZS; auto.
   - unfold a_scenario. unfold parse_step. cbn [upd_last m1 upd_line m_kw]. rewrite NS. cbn [rbind].
     rewrite (sub_taggable_rule (upd_last m1 None) (strip line) alias name NT RL).
-    rewrite (build_rule_unzoom (upd_last m1 None) m f alias name C F BG eq_refl eq_refl eq_refl). cbn [rbind].
+    rewrite (build_rule_unzoom (upd_last m1 None) m f alias name C F eq_refl eq_refl eq_refl). cbn [rbind].
     eexists. split; [reflexivity|]. apply ZS; auto.
   - unfold a_taggable. rewrite (sub_taggable_rule m1 (strip line) alias name NT RL).
-    rewrite (build_rule_unzoom m1 m f alias name C F BG eq_refl eq_refl eq_refl). cbn [rbind].
+    rewrite (build_rule_unzoom m1 m f alias name C F eq_refl eq_refl eq_refl). cbn [rbind].
     eexists. split; [reflexivity|]. apply ZS; auto.
 Qed.
 
 (* the Rule line after anything a feature body can end with: it closes a pending step table or Examples table first *)
 Lemma feed_rule_line_obody m f line alias name :
-  obody m f -> f_bg f = None -> rule_line (m_kw m) line alias name ->
-  exists mz, feed (ROk m) line = ROk (unzoom (zctx_of f) mz) /\ zstart mz m alias name.
+  obody m f -> rule_line (m_kw m) line alias name ->
+  exists mz, feed (ROk m) line = ROk (unzoom (zctx_of f) mz) /\ zstart mz m (f_bg f) alias name.
 Proof.
-  intros OB BG RL.
+  intros OB RL.
   assert (CLEAN : forall mc, m_in_examples mc = false -> m_lines mc = [] -> m_table mc = None -> in_feature_body mc ->
                    m_cont mc = CFeat -> m_feat mc = Some f -> m_line mc = m_line m -> m_tags mc = m_tags m -> m_kw mc = m_kw m ->
                    m_lang mc = m_lang m ->
                    forall l, rule_line (m_kw mc) l alias name ->
-                   exists mz, feed (ROk mc) l = ROk (unzoom (zctx_of f) mz) /\ zstart mz m alias name).
+                   exists mz, feed (ROk mc) l = ROk (unzoom (zctx_of f) mz) /\ zstart mz m (f_bg f) alias name).
   { intros mc IE LN T ST C F Lc TGc Kc Gc l RLc.
-    destruct (feed_rule_line_anywhere mc f l alias name C F BG ST T IE LN RLc) as (mz & FD & ZS).
+    destruct (feed_rule_line_anywhere mc f l alias name C F ST T IE LN RLc) as (mz & FD & ZS).
     exists mz. split; [exact FD|]. unfold zstart, rule_feat in *. rewrite Lc, TGc, Kc, Gc in ZS. exact ZS. }
   pose proof RL as [ND NB NC NT NS NP RLn].
   destruct OB as [[IE [LN [[T [ST [C F]]] | (f0 & s0 & rest & st & r & t & PD & EF)]]] | (s & rest & OV)].
@@ -181,7 +181,7 @@ Proof. induction rules as [|r rules IH]; intros ln; cbn; [reflexivity|apply IH].
 Definition fin_ok (m : mstate) (f : pfeature) : Prop :=
   exists m'', finish_table (ROk m) = ROk m'' /\ m_table m'' = None /\ m_feat m'' = Some f.
 
-Lemma fin_ok_unzoom z m vf : ztree m -> fin_ok m vf -> fin_ok (unzoom z m) (wrap z vf).
+Lemma fin_ok_unzoom z m vf : ztree z m -> fin_ok m vf -> fin_ok (unzoom z m) (wrap z vf).
 Proof.
   intros T (m'' & FIN & TB & FF). unfold fin_ok, finish_table in *. cbn [rbind] in *.
   change (m_table (unzoom z m)) with (m_table m). destruct (m_table m) as [t|].
@@ -201,21 +201,21 @@ Lemma with_items_fields f g : with_items f [] = with_items g [] ->
 Proof. unfold with_items. intros H. inversion H. repeat split; assumption. Qed.
 
 Lemma rules_are_read rules : forall m f,
-  obody m f -> m_tags m = [] -> f_bg f = None -> Forall (arule_ok (m_kw m)) rules ->
+  obody m f -> m_tags m = [] -> Forall (arule_ok (m_kw m)) rules ->
   exists m' f', fold_left feed (flat_map arule_lines rules) (ROk m) = ROk m' /\ fin_ok m' f' /\
      with_items f' [] = with_items f [] /\
      rev (map fin_item (f_items f')) = rev (map fin_item (f_items f)) ++ expected_rules rules (m_line m).
 Proof.
-  induction rules as [|[[[tls [[line alias] name]] ds] its] rules IH]; intros m f OB T BG OK.
+  induction rules as [|[[[tls [[line alias] name]] ds] its] rules IH]; intros m f OB T OK.
   - exists m, f. cbn [flat_map fold_left expected_rules]. rewrite app_nil_r. split; [reflexivity|]. split; [exact (finish_obody m f OB)|]. split; reflexivity.
   - inversion OK as [|? ? H1 OK']. subst. destruct H1 as (TL & RL & DL & IT & NBG).
     (* the rule's tag lines and the Rule line *)
     destruct (tag_lines_obody tls m f OB TL) as (m0 & FD0 & OB0 & T0 & L0 & K0).
     rewrite T in T0. cbn [app] in T0.
     assert (RL0 : rule_line (m_kw m0) line alias name) by (now rewrite K0).
-    destruct (feed_rule_line_obody m0 f line alias name OB0 BG RL0) as (mz0 & FD1 & ZS).
+    destruct (feed_rule_line_obody m0 f line alias name OB0 RL0) as (mz0 & FD1 & ZS).
     destruct ZS as (ZST & ZC & ZF & ZP & ZTG & ZTB & ZIE & ZLN & ZL & ZK).
-    set (z := zctx_of f) in *. set (vf0 := rule_feat m0 alias name) in *.
+    set (z := zctx_of f) in *. set (vf0 := rule_feat m0 (f_bg f) alias name) in *.
     (* the zoomed world: description lines, items, then the remaining rules *)
     assert (DLz : Forall (descr_line (m_kw mz0)) ds) by (now rewrite ZK, K0).
     destruct (feature_descr_lines_are_read ds mz0 vf0 ZST ZTB ZIE ZLN ZC ZF DLz)
@@ -227,16 +227,15 @@ Proof.
     assert (ITz : Forall (item_ok (m_kw mzD)) its) by (now rewrite KD, ZK, K0).
     destruct (items_are_read its mzD vfD OBD TGD' ITz) as (mz2 & vf2 & FD2 & OB2 & T2 & K2 & IT2 & HD2).
     destruct (with_items_fields vf2 vfD HD2) as (H2a & H2b & H2c & H2d & H2e & H2f & H2g).
-    assert (BG2 : f_bg vf2 = None) by (rewrite H2f; reflexivity).
     assert (OK2 : Forall (arule_ok (m_kw mz2)) rules) by (now rewrite K2, KD, ZK, K0).
-    destruct (IH mz2 vf2 OB2 T2 BG2 OK2) as (mz3 & vf3 & FD3 & FIN3 & HD3 & IT3).
+    destruct (IH mz2 vf2 OB2 T2 OK2) as (mz3 & vf3 & FD3 & FIN3 & HD3 & IT3).
     destruct (with_items_fields vf3 vf2 HD3) as (H3a & H3b & H3c & H3d & H3e & H3f & H3g).
     set (zl := ds ++ flat_map item_lines its ++ flat_map arule_lines rules).
     assert (FZ : fold_left feed zl (ROk mz0) = ROk mz3).
     { unfold zl. rewrite !fold_left_app. rewrite FDD, FD2. exact FD3. }
-    assert (ZI : zinv mz0).
+    assert (ZI : zinv z mz0).
     { split.
-      - exists vf0. split; [exact ZF|]. split; [reflexivity|]. left. split; [exact ZC|reflexivity].
+      - exists vf0. split; [exact ZF|]. split; [reflexivity|]. left. split; [exact ZC|]. split; [reflexivity|congruence].
       - rewrite ZST, ZC, ZP. unfold sigok. intuition congruence. }
     assert (NBz : Forall (nobg (m_kw mz0)) zl).
     { rewrite ZK, K0. unfold zl. cbn [arule_lines] in NBG.
@@ -266,7 +265,7 @@ Proof.
     { rewrite <- forallb_scen_fin, EO, forallb_rev. apply expected_items_scen. }
     unfold wrap. rewrite EL, (span_app P O HP HO).
     split.
-    { unfold with_items, z, zctx_of. cbn. destruct f. cbn in BG. subst. reflexivity. }
+    { unfold with_items, z, zctx_of. cbn. destruct f. reflexivity. }
     cbn [f_items]. rewrite map_app, rev_app_distr. cbn [map rev fin_item]. rewrite EP, rev_involutive. rewrite <- app_assoc. cbn [app].
     unfold z, zctx_of. cbn [z_below expected_rules].
     assert (LL : m_line mz2 = m_line m + length (arule_lines (tls, (line, alias, name), ds, its))).
@@ -274,7 +273,7 @@ Proof.
     rewrite LL. do 2 f_equal.
     unfold fin_rule, rule_of, expected_rule. cbn [r_kw r_name r_line r_tags r_descr r_bg r_items option_map].
     rewrite <- scens_fin, EO, scens_rev, rev_involutive.
-    rewrite H3a, H3b, H3c, H3d, H3e, H3f, H2a, H2b, H2c, H2d, H2e, H2f. unfold vfD, vf0, rule_feat. cbn.
+    rewrite H3a, H3b, H3c, H3d, H3e, H2a, H2b, H2c, H2d, H2e. unfold vfD, vf0, rule_feat. cbn.
     rewrite app_nil_r, rev_involutive, T0, LD, ZL, L0. reflexivity.
 Qed.
 
@@ -306,9 +305,8 @@ Proof.
   assert (TGD' : m_tags mD = []) by (rewrite TGD; reflexivity).
   destruct (items_are_read its mD fD BD TGD' OKD) as (m' & f' & FD' & B' & T' & K' & IT & HD).
   destruct (with_items_fields f' fD HD) as (Ha & Hb & Hc & Hd & He & Hf & Hg).
-  assert (BG' : f_bg f' = None) by (rewrite Hf; reflexivity).
   assert (RK' : Forall (arule_ok (m_kw m')) rules) by (rewrite K', KD; exact RK).
-  destruct (rules_are_read rules m' f' B' T' BG' RK') as (m2 & f2 & FD2 & (m'' & FIN & TB & FF) & HD2 & IT2).
+  destruct (rules_are_read rules m' f' B' T' RK') as (m2 & f2 & FD2 & (m'' & FIN & TB & FF) & HD2 & IT2).
   destruct (with_items_fields f2 f' HD2) as (Ga & Gb & Gc & Gd & Ge & Gf & Gg).
   cbn [fold_left]. rewrite F0. rewrite !fold_left_app, FDD, FD', FD2.
   exists m''. split; [exact FIN|]. split; [exact TB|]. rewrite FF. cbn [option_map]. f_equal.
@@ -317,4 +315,82 @@ Proof.
   rewrite Ga, Gb, Gc, Gd, Ge, Gf, Gg, Ha, Hb, Hc, Hd, He, Hf, Hg.
   cbn [fD f1 f_kw f_name f_line f_tags f_descr f_bg f_lang f_items map rev app option_map m_line m1 upd_st build_feature upd_tags upd_tree upd_line m0 init_state].
   rewrite app_nil_r, rev_involutive. reflexivity.
+Qed.
+
+(* ... and the same with a Background (with steps) between the feature's description and its items: the scenarios and
+   outlines of the feature and of every Rule then inherit it; the Rules themselves have no Background of their own *)
+Theorem a_feature_with_background_items_and_rules_is_read_back_exactly
+        kw code fline falias fname fds bline balias bname bsteps its rules :
+  feature_line kw fline falias fname -> Forall (descr_line kw) fds ->
+  background_line kw bline balias bname -> bsteps <> [] ->
+  Forall (fun x => let '(line, t, k, text) := x in step_line kw line t k text) bsteps ->
+  Forall (item_ok kw) its -> Forall (arule_ok kw) rules ->
+  let lb := 1 + length fds in
+  exists m',
+    finish_table (fold_left feed (fline :: fds ++ bline :: map (fun x => fst (fst (fst x))) bsteps ++
+                                  flat_map item_lines its ++ flat_map arule_lines rules)
+                            (ROk (init_state code kw VFeature StInitial))) = ROk m' /\
+    m_table m' = None /\
+    option_map fin_feature (m_feat m') =
+    Some (mkPFeat falias fname 1 [] (map strip fds)
+                  (Some (mkPBg balias bname (S lb) (steps_of bsteps (S lb)) []))
+                  (expected_items its (S lb + length bsteps) ++
+                   expected_rules rules (S lb + length bsteps + length (flat_map item_lines its))) code).
+Proof.
+  intros [NB NC NT FA] FD BL BNE BS OK RK lb. set (m0 := init_state code kw VFeature StInitial).
+  assert (F0 : feed (ROk m0) fline = ROk (upd_st (build_feature (upd_line m0 1) falias fname) StFeature)).
+  { rewrite (feed_nonblank m0 fline NB). rewrite (action_dispatch _ fline NB NC). cbn [upd_line m_st m0 init_state].
+    unfold a_initial. rewrite match_at, NT. cbn [upd_line m_kw m0 init_state]. now rewrite FA. }
+  set (m1 := upd_st (build_feature (upd_line m0 1) falias fname) StFeature) in *.
+  set (f1 := mkPFeat falias fname 1 [] [] None [] code).
+  destruct (feature_descr_lines_are_read fds m1 f1 eq_refl eq_refl eq_refl eq_refl eq_refl eq_refl FD)
+    as (mD & FDD & STD & TD & IED & LND & CD & FDf & LD & KD & TGD).
+  set (fD := mkPFeat (f_kw f1) (f_name f1) (f_line f1) (f_tags f1) (rev (map strip fds) ++ f_descr f1) (f_bg f1) (f_items f1) (f_lang f1)) in *.
+  assert (BLD : background_line (m_kw mD) bline balias bname) by (rewrite KD; exact BL).
+  assert (TGD' : m_tags mD = []) by (rewrite TGD; reflexivity).
+  destruct (feed_background_line mD fD bline balias bname STD CD FDf eq_refl eq_refl TGD' BLD)
+    as (mB & FDB & STB & WB & LB & KB & TGB & TBB & IEB & LNB & GB).
+  assert (BSB : Forall (fun x => let '(line, t, k, text) := x in step_line (m_kw mB) line t k text) bsteps) by (rewrite KB, KD; exact BS).
+  destruct (bg_steps_are_read bsteps mB _ _ (or_introl STB) WB BSB) as (mS & fS & bS & FDS & STS & WS & FRS & LS & EBS & EFS).
+  assert (STS' : m_st mS = StSteps) by (destruct STS as [X|[X _]]; [exact X|congruence]).
+  destruct FRS as (_ & _ & _ & GS & KS & _ & _ & _ & _ & _ & TGS & LNS & TBS & IES).
+  destruct WS as (AS & BSc & CS & DS & ES).
+  assert (BODY : body mS fS).
+  { split; [congruence|]. split; [congruence|]. left. split; [congruence|]. split; [right; left; exact STS'|]. split; assumption. }
+  assert (OKS : Forall (item_ok (m_kw mS)) its) by (rewrite KS, KB, KD; exact OK).
+  assert (TGS' : m_tags mS = []) by congruence.
+  destruct (items_are_read its mS fS (or_introl BODY) TGS' OKS) as (m' & f' & FD' & B' & T' & K' & IT & HD).
+  destruct (with_items_fields f' fS HD) as (Ha & Hb & Hc & Hd & He & Hf & Hg).
+  assert (RK' : Forall (arule_ok (m_kw m')) rules) by (rewrite K', KS, KB, KD; exact RK).
+  destruct (rules_are_read rules m' f' B' T' RK') as (m2 & f2 & FD2 & (m'' & FIN & TB & FF) & HD2 & IT2).
+  destruct (with_items_fields f2 f' HD2) as (Ga & Gb & Gc & Gd & Ge & Gf & Gg).
+  cbn [fold_left]. rewrite F0. rewrite fold_left_app, FDD. cbn [fold_left]. rewrite FDB. rewrite !fold_left_app, FDS, FD', FD2.
+  exists m''. split; [exact FIN|]. split; [exact TB|]. rewrite FF. cbn [option_map]. f_equal.
+  pose proof (fold_feed_line _ _ _ FD') as L'.
+  unfold fin_feature. rewrite IT2, IT, L', LS, LB, LD.
+  rewrite Ga, Gb, Gc, Gd, Ge, Gf, Gg, Ha, Hb, Hc, Hd, He, Hf, Hg.
+  rewrite EFS, EBS. rewrite ?LB, ?LD.
+  cbn [set_feat_bg bg_with_steps fD f1 f_kw f_name f_line f_tags f_items f_descr f_bg f_lang map rev app option_map fin_bg
+       bg_kw bg_name bg_line bg_steps bg_descr m_line m1 upd_st build_feature upd_tags upd_tree upd_line m0 init_state].
+  unfold fin_bg, bg_with_steps, lb. cbn [bg_kw bg_name bg_line bg_steps bg_descr rev app].
+  rewrite ?app_nil_r, ?rev_involutive. reflexivity.
+Qed.
+
+(* non-vacuity: an English feature with a feature-level scenario and a tagged Rule with a description and a scenario
+   satisfies every hypothesis of the theorem *)
+Example an_english_feature_with_a_rule :
+  let fline := [70; 101; 97; 116; 117; 114; 101; 58; 32; 70]%N in
+  let its := [IScen ([], ([32; 32; 83; 99; 101; 110; 97; 114; 105; 111; 58; 32; 65]%N, [83; 99; 101; 110; 97; 114; 105; 111]%N, [65]%N), [],
+                     [([32; 32; 32; 32; 71; 105; 118; 101; 110; 32; 97; 32; 117; 115; 101; 114]%N, SGiven, [71; 105; 118; 101; 110; 32]%N, [97; 32; 117; 115; 101; 114]%N, None, [])])] in
+  let rules := [([([32; 32; 64; 114]%N, [[114]%N])], ([32; 32; 82; 117; 108; 101; 58; 32; 82]%N, [82; 117; 108; 101]%N, [82]%N), [[32; 32; 32; 32; 97; 98; 111; 117; 116; 32; 116; 104; 101; 32; 114; 117; 108; 101]%N],
+                 [IScen ([], ([32; 32; 32; 32; 83; 99; 101; 110; 97; 114; 105; 111; 58; 32; 66]%N, [83; 99; 101; 110; 97; 114; 105; 111]%N, [66]%N), [],
+                         [([32; 32; 32; 32; 32; 32; 84; 104; 101; 110; 32; 120]%N, SThen, [84; 104; 101; 110; 32]%N, [120]%N, None, [])])])] in
+  feature_line english fline [70; 101; 97; 116; 117; 114; 101]%N [70]%N /\ Forall (item_ok english) its /\ Forall (arule_ok english) rules.
+Proof.
+  cbv zeta. split; [|split].
+  - split; try (vm_compute; congruence); vm_compute; reflexivity.
+  - repeat constructor; try (vm_compute; congruence); try (vm_compute; reflexivity).
+    + exists RGiven. split; vm_compute; reflexivity.
+  - repeat constructor; try (vm_compute; congruence); try (vm_compute; reflexivity).
+    + exists RThen. split; vm_compute; reflexivity.
 Qed.
